@@ -236,6 +236,15 @@ impl Executor {
         self.queue().hot_head().is_some()
     }
 
+    /// Verification hook (`--cfg compio_verif` only): the hot and the cold list of the task queue as walked
+    /// through the intrusive links, and the stored tails. Used by /verif/harness to compare the real list
+    /// structure with the model after every operation.
+    #[cfg(compio_verif)]
+    #[doc(hidden)]
+    pub fn verif_queue_dump(&self) -> ([Vec<u64>; 2], [Option<u64>; 2]) {
+        self.queue().verif_dump()
+    }
+
     /// Clear the executor, drop all tasks.
     ///
     /// This should be called only in context of the runtime, if any future may
